@@ -32,6 +32,8 @@ use vstd::std_specs::cmp::OrdSpec;
 //@map /slot\.lock\(\)\.vx_expect\(\)\.clone\(\)/ => slot.vx_get()
 //@map /Secp256k1::signing_only\(\)/ => VxSecp::signing_only()
 //@map /\bkeys\.(funding_key|revocation_base_key|payment_key|delayed_payment_base_key|htlc_base_key|commitment_seed)\b/ => keys.vx_f_\1()
+//@map /Arc<dyn Validator>/ => VxValidator
+//@map /Weak::clone\(&stub\.node\)/ => stub.node.clone()
 //@map /OrderedMap::from_iter\(listener_entries\.into_iter\(\)\.map\(\|e\| \(e\.0, e\.1\)\)\)/ => vx_listeners(listener_entries)
 verus! {
 
@@ -125,6 +127,22 @@ impl InMemorySigner {
     #[verifier::external_body] pub fn channel_keys_id(&self) -> [u8; 32] { unimplemented!() }
     #[verifier::external_body] pub fn get_secure_random_bytes(&self) -> [u8; 32] { unimplemented!() }
 }
+impl VxValidatorFactory {
+    #[verifier::external_body]
+    pub fn make_validator(&self, n: VxNet, node_id: PublicKey, id: Option<ChannelId>) -> VxValidator { unimplemented!() }
+}
+#[verifier::external_body] pub struct VxNet { _p: u8 }
+impl VxValidator {
+    #[verifier::external_body] pub fn minimum_initial_balance(&self, to_holder_msat: u64) -> u64 { unimplemented!() }
+    // SimpleValidator::validate_setup_channel is under contract in unit sv_setup (C05); here only its call matters
+    #[verifier::external_body]
+    pub fn validate_setup_channel(&self, w: &VxNode, setup: &ChannelSetup, path: &DerivationPath) -> Result<(), ValidationError> { unimplemented!() }
+}
+impl EnforcementState {
+    #[verifier::external_body] pub fn new(initial_holder_value: u64) -> EnforcementState { unimplemented!() }
+}
+#[verifier::external_body]
+pub fn vx_setup_eq(a: &ChannelSetup, b: &ChannelSetup) -> (r: bool) ensures r == (*a == *b) { unimplemented!() }
 impl VxSecp {
     #[verifier::external_body] pub fn new() -> VxSecp { unimplemented!() }
     #[verifier::external_body] pub fn signing_only() -> VxSecp { unimplemented!() }
@@ -134,6 +152,10 @@ impl ChainMonitorBase {
     #[verifier::external_body]
     pub fn new_from_persistence(o: OutPoint, st: VxTrackerState, id: &ChannelId) -> ChainMonitorBase { unimplemented!() }
     #[verifier::external_body]
+    pub fn new(o: OutPoint, height: u32, id: &ChannelId) -> ChainMonitorBase { unimplemented!() }
+    #[verifier::external_body]
+    pub fn add_funding_outpoint(&self, o: &OutPoint) { unimplemented!() }
+    #[verifier::external_body]
     pub fn as_monitor(&self, p: VxProvider) -> VxMonitor { unimplemented!() }
 }
 impl VxTracker {
@@ -142,6 +164,8 @@ impl VxTracker {
 impl VxTrackerGuard {
     #[verifier::external_body] pub fn height(&self) -> u32 { unimplemented!() }
     #[verifier::external_body] pub fn restore_listener(&mut self, o: OutPoint, m: VxMonitor, s: VxTrackerSlot) { unimplemented!() }
+    // tracker.add_listener(monitor, OrderedSet::from_iter(vec![txid]))
+    #[verifier::external_body] pub fn vx_add_listener(&mut self, m: VxMonitor, txid: Txid) { unimplemented!() }
 }
 impl NodeConfig { #[verifier::external_body] pub fn vx_allow_deep_reorgs(&self) -> bool { unimplemented!() } }
 impl NodeServices {
@@ -189,6 +213,11 @@ impl VxNode {
     // Persist::new_channel for a fresh stub
     #[verifier::external_body]
     pub fn vx_persist_new_channel(&self, node_id: &PublicKey, stub: &ChannelStub) -> Result<(), ()> { unimplemented!() }
+    #[verifier::external_body] pub fn validator_factory(&self) -> VxValidatorFactory { unimplemented!() }
+    #[verifier::external_body] pub fn network(&self) -> VxNet { unimplemented!() }
+    // self.persister.update_tracker(..) / update_channel(..) with the error mapped to an internal error
+    #[verifier::external_body] pub fn vx_persist_tracker(&self, t: &VxTrackerGuard) -> Result<(), Status> { unimplemented!() }
+    #[verifier::external_body] pub fn vx_persist_channel(&self, c: &Channel) -> Result<(), Status> { unimplemented!() }
     #[verifier::external_body]
     pub fn vx_downgrade(&self) -> VxNodeRef { unimplemented!() }
     #[verifier::external_body]
@@ -247,6 +276,27 @@ impl VxNode {
             && (km_native_or_ldk(self.keys_manager()) ==>
                 ldk_secrets(r->Ok_0.1->Some_0->Stub_0.keys) == km_secrets(self.keys_manager(), channel_id)),             //[C18.create.stub-keys-from-id]
 //@sub /Arc::downgrade\(arc_self\)/ => arc_self.vx_downgrade()
+//@end
+
+//@fn vls-core/src/node.rs :: impl Node :: setup_channel props=C18,C15 optclosures
+    requires setup.channel_value_sat <= 0x40_0000_0000_0000,     // input range: `channel_value_sat * 1000` (msat) does not wrap
+    ensures
+        // the ready channel carries the stub's six secrets (the ones derived from id0 at creation), both ids and the setup
+        r.is_ok() && self.channels().contains_key(channel_id0) && self.channels()[channel_id0]@ is Stub ==>
+            ldk_secrets(r->Ok_0.keys) == ldk_secrets(self.channels()[channel_id0]@->Stub_0.keys)
+            && r->Ok_0.id0 == channel_id0 && r->Ok_0.id == opt_channel_id && r->Ok_0.setup == setup,              //[C18.setup.keeps-stub-secrets] [C15.setup.keeps-both-ids]
+        // an already ready channel is handed back as it is (same setup required)
+        r.is_ok() && self.channels().contains_key(channel_id0) && self.channels()[channel_id0]@ is Ready ==>
+            r->Ok_0 == self.channels()[channel_id0]@->Ready_0,                                                     //[C18.setup.ready-channel-untouched]
+        r.is_ok() ==> self.channels().contains_key(channel_id0),
+//@sub /let slot = arcobj\.lock\(\)\.vx_expect\(\);/ => let slot = arcobj.vx_get();
+//@sub /match &\*slot \{/ => match &slot {
+//@sub /if c\.setup != setup \{/ => if !vx_setup_eq(&c.setup, &setup) {
+//@sub /monitor,\n(\s*)\}\n(\s*)\};/ => monitor, persisted: Ghost(enforcement_state),\n\1}\n\2};
+//@sub /let commitment_point_provider = ChannelCommitmentPointProvider::new\(chan_arc\.clone\(\)\);/ => let commitment_point_provider = VxProvider::new(chan_arc.clone());
+//@sub /(?s)tracker\.add_listener\(\s*chan\.monitor\.as_monitor\(Box::new\(commitment_point_provider\)\),\s*OrderedSet::from_iter\(vec!\[setup\.funding_outpoint\.txid\]\),\s*\);/ => tracker.vx_add_listener(chan.monitor.as_monitor(commitment_point_provider), setup.funding_outpoint.txid);
+//@sub /(?s)self\.persister\s*\.update_tracker\(&self\.get_id\(\), &tracker\)\s*\.map_err\(\|\w+\| internal_error\([^)]*\)\)\?;/ => self.vx_persist_tracker(&tracker)?;
+//@sub /(?s)self\.persister\s*\.update_channel\(&self\.get_id\(\), &chan\)\s*\.map_err\(\|\w+\| internal_error\([^)]*\)\)\?;/ => self.vx_persist_channel(&chan)?;
 //@end
 
 } // impl VxNode
